@@ -20,6 +20,7 @@ mod c_unify;
 mod c_ctx;
 mod c_rewrite;
 mod c_work;
+mod c_peg;
 
 fn main() {
     colored::control::set_override(false);
@@ -41,6 +42,8 @@ fn main() {
         "record-ctx" => c_ctx::record(rest),
         "replay-rewrite" => c_rewrite::replay(rest),
         "record-work" => c_work::record(rest),
+        "replay-peg" => c_peg::replay(rest),
+        "record-peg" => c_peg::record(rest),
         "replay-listing" => c_diag::replay_listing(rest),
         "plant-scope" => c_diag::plant_scope(rest),
         "plant-type" => c_diag::plant_type(rest),
